@@ -30,6 +30,10 @@ Expression nodes (tuples, see gen/expr_gen.py for the generator):
                                   anycomp (any([b for b in x])) allstar (all([*x])) catnot (std.concat(*[~b for b in x]))
     select_with keys may be ("alias", spelling, value) with spelling in int/str/typed: several python keys that
     denote the same selector value; the FIRST matching key wins
+    ("null",) ("full",)           cohdl.Null / cohdl.Full as an alternative of if / ifret / sel: all zeros / all ones of the
+                                  object the merged value is finally assigned to (upstream test_select_with_02)
+    ("ifret", c, a, b)            like "if", written as a helper with two return statements (multi-return merge)
+    ("shared", x, body)           x bound to a name, body uses it several times through ("bound", type)
     ("src", kind, x)              operand source (value and type of x): kind in always (t = cohdl.always(x)),
                                   alwaysblock (with cohdl.always: t = x), localsig (t = Signal[T](x)),
                                   localvar (t = Variable[T](x)), fn (return value of an inlined function)
@@ -62,6 +66,31 @@ class _Open:
 
 
 OPEN = _Open()
+
+
+class _NF:
+    def __init__(self, full):
+        self.full = full
+
+    def __repr__(self):
+        return "FULL" if self.full else "NULL"
+
+
+FULLV = _NF(True)
+NULLV = _NF(False)
+
+
+def is_nf(node):
+    return isinstance(node, tuple) and node and node[0] in ("null", "full")
+
+
+def resolve_nf(t, v):
+    """Null / Full take the type of the target"""
+    if isinstance(v, _NF):
+        if t == BOOL:
+            return v.full
+        return (mask(width(t)) if v.full else 0)
+    return v
 
 BIT = ("bit",)
 BOOL = ("bool",)
@@ -229,7 +258,21 @@ def typeof(node):
     if k == "tobool":
         truth_ok(typeof(node[1]))
         return BOOL
-    if k == "if":
+    if k == "bound":
+        return node[1]
+    if k == "shared":
+        if not is_vec(typeof(node[1])):
+            raise IllTyped("shared")
+        return typeof(node[2])
+    if k in ("if", "ifret") and (is_nf(node[2]) or is_nf(node[3])):
+        truth_ok(typeof(node[1]))
+        if is_nf(node[2]) and is_nf(node[3]):
+            raise IllTyped("Null/Full on both sides")
+        t = typeof(node[3] if is_nf(node[2]) else node[2])
+        if not (t == BIT or is_vec(t)) or is_lit(node[2]) or is_lit(node[3]):
+            raise IllTyped("Null/Full alternative")
+        return t
+    if k in ("if", "ifret"):
         c, a, b = node[1], node[2], node[3]
         truth_ok(typeof(c))
         ta, tb = typeof(a), typeof(b)
@@ -302,6 +345,14 @@ def typeof(node):
             if isinstance(kk, tuple) and kk[0] == "alias" and kk[1] == "int" and ta[0] != "u":
                 raise IllTyped("int key")
         vals = [e for _, e in branches] + ([default] if default is not None else [])
+        if any(is_nf(e) for e in vals):
+            ts = {typeof(e) for e in vals if not is_nf(e)}
+            if len(ts) != 1 or any(is_lit(e) for e in vals):
+                raise IllTyped("sel with Null/Full")
+            t = next(iter(ts))
+            if not (t == BIT or is_vec(t)):
+                raise IllTyped("sel with Null/Full")
+            return t
         ts = {typeof(e) for e in vals if not is_lit(e)}
         if len(ts) != 1:
             raise IllTyped("sel value types")
@@ -513,7 +564,18 @@ def evaluate(node, env):
     if k == "tobool":
         v = evaluate(node[1], env)
         return OPEN if v is OPEN else truth(typeof(node[1]), v)
-    if k == "if":
+    if k == "null":
+        return NULLV
+    if k == "full":
+        return FULLV
+    if k == "bound":
+        return env["__bound__"]
+    if k == "shared":
+        v = evaluate(node[1], env)
+        env2 = dict(env)
+        env2["__bound__"] = v
+        return evaluate(node[2], env2)
+    if k in ("if", "ifret"):
         c, a, b = node[1], node[2], node[3]
         t = typeof(node)
         cv = evaluate(c, env)
@@ -625,6 +687,8 @@ def evaluate(node, env):
         v = evaluate(node[3], env)
         if v is OPEN:
             return OPEN
+        if isinstance(v, _NF):
+            return resolve_nf(dst, v)
         if dst == BOOL:
             return truth(src, v)
         if dst == BIT:
@@ -761,7 +825,7 @@ def leaves(node, acc=None):
                 raise IllTyped("slot reused with a different type")
             acc[node[2]] = node[1]
             return acc
-        if node and node[0] in ("lit", "const"):
+        if node and node[0] in ("lit", "const", "bound", "null", "full"):
             return acc
         for x in (node[1:] if isinstance(node[0], str) else node):
             if isinstance(x, tuple):
@@ -786,7 +850,7 @@ def valuations(node):
     for combo in itertools.product(*[domain(lv[sl]) for sl in slots]):
         env = dict(zip(slots, combo))
         try:
-            res = evaluate(node, env)
+            res = resolve_nf(typeof(node), evaluate(node, env))
         except Outside:
             outside += 1
             continue
